@@ -333,6 +333,20 @@ class Model:
                 return False
         return True
 
+    def method_aliases(self):
+        """{'Sub.m': qualified name of the definition of m that Sub inherits} for every class and every method it does not define itself"""
+        if getattr(self, '_maliases', None) is not None:
+            return self._maliases
+        out = {}
+        for c in self.classes.values():
+            for k in c.mro()[1:]:
+                for n, m in k.methods.items():
+                    q = '%s.%s' % (c.name, n)
+                    if n not in c.methods and q not in out and q not in self.funcs:
+                        out[q] = m.qn
+        self._maliases = out
+        return out
+
     def new_definitions(self):
         """{module path: names of classes and functions defined there that the pinned tree did not define in that module} - what a change introduced"""
         if getattr(self, '_new_defs', None) is not None:
